@@ -31,6 +31,9 @@ def jobs(tier):
         # -inf when maximising)
         out.append({"name": "mgm-pair-hard-%s" % mode, "algo": "mgm", "spec": spec("pair", mode), "stop": 3,
                     "kinds": ["sym", "inf" if mode == "min" else "-inf"]})
+        # real-valued costs in [0, 1] (gains with many decimals)
+        out.append({"name": "mgm-pair-real-%s" % mode, "algo": "mgm", "spec": spec("pair", mode), "stop": 3,
+                    "real": True, "range": (0, 1)})
         # non-default tie-break parameter
         out.append({"name": "mgm-pair-breakrandom-%s" % mode, "algo": "mgm", "spec": spec("pair", mode), "stop": 3,
                     "params": {"break_mode": "random"}})
